@@ -15,6 +15,8 @@ func init() {
 const reqMu = "protocol/req.socket.Mutex"
 
 func runC03(p *Prog, r *Report) {
+	crossCutting(p, r, "C03.X", "protocol/req", "protocol/xreq")
+	importFrom(p, r, "C03.9/req-timers", "REQ deadline timers expire only the request they were armed for (shared with C18.3): a stale timer must not cancel a newer or still current request", func(t *Report, rule string) { c18ReqTimers(p, t) }, "*")
 	lockBalance(p, r, "C03.7/E1", "protocol/req", "protocol/xreq")
 	q := NewQ(p, r)
 	R := "C03.1/reply-matching"
